@@ -41,35 +41,7 @@ def login_then_bye(io, state):
         state['never_closed'] = True
 
 
-class Decoy(object):
-    """A second Connection object constructed *after* the one under test and
-    never used: it points at a port that refuses connections and carries
-    listeners/handlers that must never be called.  State shared between
-    Connection objects (class- or module-level) shows up as the connection
-    under test using the decoy's address, name or callbacks."""
-
-    def __init__(self):
-        from minecraft.networking.connection import Connection
-        from minecraft.networking.packets import Packet
-        self.port = mcserver.RefusingPort()
-        self.calls = []
-        self.conn = Connection(
-            '127.0.0.1', self.port.port, username='decoy-user',
-            allowed_versions={340},
-            handle_exception=lambda e, i: self.calls.append(('exc', repr(e))),
-            handle_exit=lambda: self.calls.append(('exit',)))
-        self.conn.register_packet_listener(
-            lambda p: self.calls.append(('pkt', type(p).__name__)), Packet,
-            early=True)
-        self.conn.register_exception_handler(
-            lambda e, i: self.calls.append(('handler', repr(e))))
-
-    def verdict(self, run, w):
-        if self.calls:
-            run.violation('isolation/decoy-callbacks', 'callbacks of another, '
-                          'unused Connection object were invoked',
-                          dict(w, calls=self.calls[:4]))
-        self.port.close()
+Decoy = pc.Decoy
 
 
 def login_then_bye_compressed(io, pv):
@@ -125,6 +97,7 @@ def negotiate(run, rng, sup, order, cfg, sup_all):
     server = mcserver.Server(handler)
     rec = pc.Recorder()
     conn = None
+    decoy = None
     w = {k: cfg[k] for k in ('allowed', 'default', 'behaviour', 'as_names',
                               'auth')}
     try:
@@ -274,6 +247,8 @@ def negotiate(run, rng, sup, order, cfg, sup_all):
                     errors=state['login_errors'])
         return None
     finally:
+        if decoy is not None:
+            decoy.port.close()
         server.stop()
         if conn is not None:
             try:
@@ -316,6 +291,7 @@ def plain_status(run, rng, cfg):
     server = mcserver.Server(handler)
     rec = pc.Recorder()
     conn = None
+    decoy = None
     w = dict(cfg)
     out = _io.StringIO()
     try:
@@ -407,6 +383,8 @@ def plain_status(run, rng, cfg):
                 'status query')
         return None
     finally:
+        if decoy is not None:
+            decoy.port.close()
         server.stop()
         if conn is not None:
             try:
